@@ -1,4 +1,6 @@
 import HawkModel.SedLemmas
+import HawkModel.SedParseLemmas
+import HawkModel.SedPrint
 /-!
   C18 — theorems about the reference executor `Hawk.Sed.exec` (HawkModel/Sed.lean), which the
   correspondence check ties to lib/sed.c (hawk-sed CLI) and to GNU `sed --posix`.
@@ -479,5 +481,226 @@ example : (exec (fun _ _ _ => none)
 example : (exec (fun _ _ _ => none) [{ a1 := .last, neg := true, op := .nextAppend }] false 100 5 [['a', '\n'], ['b']]).out
     = ['a', '\n', 'b'] := by
   decide
+
+/-! ## the script compiler (HawkModel/SedParse.lean = hawk_sed_comp, tied by the dump of harness/sedc_h.c) -/
+
+/-- what hawk_sed_comp accepts is balanced: `{` / `}` nest, the group level never goes below zero and ends at zero -/
+theorem parse_balanced (tr : Traits) (s : Str) (cs : List PCmd) (h : parseScript tr s = .ok cs) :
+    balanced (cs.map PCmd.toS) 0 = true :=
+  compLoop_balanced tr s 0 [] cs h
+
+/-- no label is defined twice in an accepted script (HAWK_SED_ELABDU otherwise); the empty label `:` is no label -/
+theorem parse_labels_unique (tr : Traits) (s : Str) (cs : List PCmd) (h : parseScript tr s = .ok cs)
+    (name : Str) (hn : name ≠ []) : countLabel (cs.map PCmd.toS) name ≤ 1 := by
+  have := compLoop_labels tr s 0 [] cs h name hn
+  simpa using this
+
+/-- every accepted command: the first address is not line 0, there is no second address without a first, and
+    labels and `}` carry no address -/
+theorem parse_well_addressed (tr : Traits) (s : Str) (cs : List PCmd) (h : parseScript tr s = .ok cs) :
+    ∀ c ∈ cs, c.wellAddressed :=
+  compLoop_forall PCmd.wellAddressed tr (parseCmd_wellAddressed tr) s 0 [] cs h
+
+theorem wellAddressed_good (c : PCmd) (h : c.wellAddressed) : c.toS.good := by
+  obtain ⟨h0, h12, hm⟩ := h
+  cases c with | mk a1 a2 neg op =>
+  refine ⟨?_, ?_⟩
+  · cases a1 with
+    | line n => rcases n with _ | n
+                · simp at h0
+                · simp [addrOk, PCmd.toS, PAddr.toAddr]
+    | none => simp at h12; simp [addrOk, PCmd.toS, PAddr.toAddr, h12]
+    | last => simp [addrOk, PCmd.toS, PAddr.toAddr]
+    | re p ic => simp [addrOk, PCmd.toS, PAddr.toAddr]
+  · intro hmark
+    have : op.isMark = true := by
+      rcases hmark with ⟨n, hn⟩ | hr
+      · simp only [PCmd.toS] at hn
+        rw [toSOp_eq_label] at hn; simp [hn, POp.isMark]
+      · simp only [PCmd.toS] at hr
+        rw [toSOp_eq_rbrace] at hr; simp [hr, POp.isMark]
+    simp at hm
+    simp [PCmd.toS, hm this, PAddr.toAddr]
+
+/-- `compile_total`: the compiler is total, and its outcomes are exactly those of the C: a syntax error of
+    hawk_sed_comp, a label that does not exist (HAWK_SED_ELABNF of init_command_block_for_exec), or a program.
+    In particular an accepted script never fails in brace matching, duplicate labels or address checks later on. -/
+theorem compileText_total (tr : Traits) (s : Str) :
+    (∃ e, compileText tr s = .error (.inl e)) ∨ compileText tr s = .error (.inr .noLabel) ∨ ∃ p, compileText tr s = .ok p := by
+  unfold compileText
+  cases hp : parseScript tr s with
+  | error e => exact Or.inl ⟨e, rfl⟩
+  | ok cs =>
+    right
+    have hb := parse_balanced tr s cs hp
+    have hg : ∀ c ∈ cs.map PCmd.toS, c.good := by
+      intro c hc
+      obtain ⟨pc, hpc, rfl⟩ := List.mem_map.mp hc
+      exact wellAddressed_good pc (parse_well_addressed tr s cs hp pc hpc)
+    have hl : ∀ name, name ≠ [] → countLabel (cs.map PCmd.toS) name ≤ 1 := fun n hn => parse_labels_unique tr s cs hp n hn
+    have := compileGo_ok_or_noLabel (cs.map PCmd.toS) (cs.map PCmd.toS) 0 hg ⟨0, hb⟩ hl
+    simp only [compile, hb]
+    rcases this with ⟨p, hp'⟩ | hp'
+    · right; exact ⟨p, by simp [hp']⟩
+    · left; simp [hp']
+
+/-- `compile_targets_inside`: every branch of a compiled script (b, t, and the skip-branch a `{` is compiled to) goes to the
+    end of the script or to the position of a label / `}` command inside it; the program has one command per source command -/
+theorem compile_targets_inside (cs : List PCmd) (p : Prog) (h : compile (cs.map PCmd.toS) = .ok p) :
+    p.length = cs.length ∧ ∀ k ∈ p, ∀ t, (k.op = .branch t ∨ k.op = .tbranch t) →
+      t = cs.length ∨ ∃ c, cs[t]? = some c ∧ c.op.isMark = true := by
+  have := compile_targets (cs.map PCmd.toS) p (by
+    intro c hc
+    obtain ⟨pc, _, rfl⟩ := List.mem_map.mp hc
+    exact toS_noRawBranch pc) h
+  refine ⟨by simpa using this.1, ?_⟩
+  intro k hk t ht
+  rcases this.2 k hk t ht with e | ⟨c', hc', hop⟩
+  · left; simpa using e
+  · right
+    simp only [List.getElem?_map] at hc'
+    cases hcs : cs[t]? with
+    | none => simp [hcs] at hc'
+    | some c =>
+      simp [hcs] at hc'
+      subst hc'
+      refine ⟨c, rfl, ?_⟩
+      rcases hop with ⟨n, hn⟩ | hr
+      · simp only [PCmd.toS] at hn
+        rw [toSOp_eq_label] at hn; simp [hn, POp.isMark]
+      · simp only [PCmd.toS] at hr
+        rw [toSOp_eq_rbrace] at hr; simp [hr, POp.isMark]
+
+/-- ... in particular, from script text: every branch target of a compiled script lies inside the script or at its end -/
+theorem compileText_targets_inside (tr : Traits) (s : Str) (p : Prog) (h : compileText tr s = .ok p) :
+    ∀ k ∈ p, ∀ t, (k.op = .branch t ∨ k.op = .tbranch t) → t ≤ p.length := by
+  unfold compileText at h
+  split at h
+  · cases h
+  · rename_i cs hcs
+    split at h
+    · cases h
+    · rename_i p' hp'
+      cases h
+      have := compile_targets_inside cs p hp'
+      intro k hk t ht
+      rcases this.2 k hk t ht with e | ⟨c, hc, _⟩
+      · omega
+      · have : t < cs.length := by
+          rcases Nat.lt_or_ge t cs.length with h | h
+          · exact h
+          · simp [List.getElem?_eq_none h] at hc
+        omega
+
+/-- non-vacuity: scripts are accepted (`p`), and the three outcomes of `compileText_total` all occur -/
+example : parseScript {} ['p'] = .ok [{ op := .simple 'p' }] := by
+  have h : parseCmd {} ['p'] = .ok ({ op := .simple 'p' }, []) := by rfl
+  unfold parseScript compLoop
+  simp [h, isSpace, compLoop, Except.map]
+
+example : parseScript {} ['}'] = .error .EGRNBA := by
+  have h : parseCmd {} ['}'] = .ok ({ op := .rbrace }, []) := by rfl
+  unfold parseScript compLoop
+  simp [h, isSpace]
+
+example : compileText {} ['b', 'x'] = .error (.inr .noLabel) := by
+  have h : parseCmd {} ['b', 'x'] = .ok ({ op := .branch 'b' (some ['x']) }, []) := by rfl
+  unfold compileText parseScript compLoop
+  simp [h, isSpace, compLoop, Except.map]
+  rfl
+
+/-- `print_parse_roundtrip_partial`: compiling the printed form of a command list gives the command list back, for every list
+    of `Plain` commands that hawk_sed_comp's bookkeeping accepts (`accepts`: blocks nest, at most 128 deep, no label twice).
+    Plain = one or two addresses out of `$` and the line numbers 1 .. 2^64-1, or none; any negation; the argument-less
+    commands q Q = d D p P l h H g G x n N z; `a` `i` `c` with any text ending in a newline (backslashes and embedded
+    newlines are escaped by the printer); `r` `R` `w` `W` with any non-empty NUL-free file name (terminators, spaces,
+    backslashes and newlines escaped by the printer); `y` with any pair list (printed between `/`, with `/` `\\` and newline
+    escaped); `b` `t` with or without a label; `:label`; `{` and `}`.
+    Every trait setting without -a (with -a `1,2q` is an error).
+    MISSING for the full statement: regex addresses (and the I modifier) and the `s` command (pickup_rex with its
+    bracket-state machine has no proved inverse); for those the round trip
+    is only exercised on the real compiler (text -> dump, three chunkings), not proved. -/
+theorem print_parse_roundtrip_partial (tr : Traits) (hs : tr.strict = false) (cs : List PCmd) (h : ∀ c ∈ cs, c.Plain)
+    (ha : accepts cs 0 [] = true) : parseScript tr (printCmds cs) = .ok cs :=
+  compLoop_print tr hs cs h 0 [] ha
+
+/-- ... and the program made of it is the resolution of the list itself -/
+theorem print_compile_roundtrip_partial (tr : Traits) (hs : tr.strict = false) (cs : List PCmd) (h : ∀ c ∈ cs, c.Plain)
+    (ha : accepts cs 0 [] = true) (p : Prog)
+    (hp : compile (cs.map PCmd.toS) = .ok p) : compileText tr (printCmds cs) = .ok p := by
+  simp [compileText, print_parse_roundtrip_partial tr hs cs h ha, hp]
+
+/-- non-vacuity: `12,$!{` / `a\` X / `bx` / `}` / `:x` is a Plain, accepted list, and its printed form is the expected text -/
+def sampleCmds : List PCmd :=
+  [⟨.line 12, .last, true, .lbrace⟩, ⟨.none, .none, false, .text 'a' ['X', '\\', '\n']⟩,
+   ⟨.last, .none, false, .file 'w' ['f', ';', '1', ' ']⟩, ⟨.none, .none, true, .trans [('a', '/'), ('\n', '\\')]⟩,
+   ⟨.none, .none, false, .branch 'b' (some ['x'])⟩, ⟨.none, .none, false, .rbrace⟩, ⟨.none, .none, false, .label ['x']⟩]
+
+example : (∀ c ∈ sampleCmds, c.Plain) ∧ accepts sampleCmds 0 [] = true := by
+  refine ⟨?_, by decide⟩
+  intro c hc
+  simp [sampleCmds] at hc
+  rcases hc with rfl | rfl | rfl | rfl | rfl | rfl | rfl <;>
+    simp [PCmd.Plain, PAddr.plain, POp.plain, POp.isMark, plainChars, labelName, fileName, endsNl, isLabChar, isCmdTermC, isSpace]
+
+/-- `line_address_roundtrip`: a line-number address printed in decimal is read back by get_address as that number (below 2^64,
+    where hawk_oow_t wraps), whatever non-digit text follows.  (The part of the printer round trip for line-number addresses;
+    the step of `print_parse_roundtrip_partial` for line-number addresses.) -/
+theorem line_address_roundtrip (n : Nat) (hn : n < 2 ^ 64) (t : Str) (ht : ∀ c, t.head? = some c → isDigit c = false) :
+    getAddress (toDec n ++ t) = some (.line n, t) :=
+  getAddress_print_line n hn t ht
+
+example : getAddress (toDec 42 ++ ['p']) = some (.line 42, ['p']) :=
+  line_address_roundtrip 42 (by decide) _ (by intro c h; simp at h; subst h; decide)
+
+/-! ## script delivery (-e pieces, -f files: lib/std-sed.c read_input_stream) and `y` -/
+
+/-- one script fragment: the compiler sees it with a newline supplied if it does not end in one (the empty script is one empty line) -/
+theorem deliver_single (f : Str) : deliver [f] = f ++ (if endsNl f then [] else ['\n']) := by
+  unfold deliver deliverGo endsNl
+  cases h : f.getLast? with
+  | none => simp [deliverGo]
+  | some c => by_cases hc : c = '\n' <;> simp [deliverGo, hc]
+
+/-- cutting a script between two commands (after a newline) into two -e / -f pieces changes nothing: the pieces are
+    compiled exactly as their concatenation (whatever pieces follow, whatever was read before) -/
+theorem deliver_cut (f1 f2 : Str) (rest : List Str) (last : Char) (h : endsNl f1 = true) :
+    deliverGo (f1 :: f2 :: rest) last = deliverGo ((f1 ++ f2) :: rest) last := by
+  unfold endsNl at h
+  have h0 : f1.getLast? = some '\n' := by simpa using h
+  have h1 : f1.getLast?.getD last = '\n' := by simp [h0]
+  cases f2 with
+  | nil => simp [deliverGo, h0]
+  | cons c r =>
+    cases hx : (c :: r).getLast? with
+    | none => simp at hx
+    | some x =>
+      have h2 : (f1 ++ c :: r).getLast? = some x := by simp [List.getLast?_append, hx]
+      simp [deliverGo, h0, h2, hx]
+
+/-- a piece that does not end in a newline is separated from the next piece by one: `-e p -e p` is `p\np\n` -/
+theorem deliver_separates (f1 : Str) (rest : List Str) (c : Char) (body : Str) (hf : f1 = body ++ [c]) (hc : c ≠ '\n') :
+    deliver (f1 :: rest) = f1 ++ '\n' :: deliverGo rest c := by
+  subst hf
+  simp [deliver, deliverGo, hc]
+
+/-- `y`: each character is replaced by the partner of the FIRST pair whose source it is, all others are kept -/
+theorem transChar_spec (pairs : List (Char × Char)) (c : Char) :
+    transChar pairs c = ((pairs.find? fun p => p.1 = c).map (·.2)).getD c := by
+  induction pairs with
+  | nil => simp [transChar]
+  | cons p rest ih =>
+    obtain ⟨a, b⟩ := p
+    unfold transChar
+    by_cases h : c = a
+    · simp [h]
+    · have h' : ¬ a = c := fun e => h e.symm
+      simp [h, h', ih]
+
+/-- `y` works character by character on the line body: position i of the result depends on position i of the pattern space only -/
+theorem trans_pointwise (pairs : List (Char × Char)) (ps : Str) (i : Nat) (hi : i < (trimLine ps).1.length) :
+    (doTrans pairs ps)[i]? = ((trimLine ps).1[i]?).map (transChar pairs) := by
+  unfold doTrans
+  simp [List.getElem?_append_left, hi]
 
 end Hawk.Sed.C18
